@@ -1,5 +1,5 @@
 //! Server-level runner for the octet-exact composed suite (`srvw`):
-//! `<u|t> <edns> <catalog> <keys> <requesthex>` -> `none` | `resp ...` | `panic`.
+//! `<u|t|U|T> <edns> <catalog> <keys> <requesthex>` (U/T: single-entry catalog served through SingleZoneCatalog) -> `none` | `resp ...` | `panic`.
 //!
 //! Same as `impl_srv`, except that the one thing in a response that depends on the wall clock is
 //! normalised so that responses with a TSIG record can be compared OCTET FOR OCTET with the model, whose
@@ -93,13 +93,18 @@ fn normalise_clock(resp: &mut [u8], t0: u64, t1: u64) -> Option<()> {
 fn main() {
     let mut resp_buf = vec![0u8; 65535];
     run_lines(|f| {
-        let transport = if f[0] == "t" { Transport::Tcp } else { Transport::Udp };
+        let transport = if f[0].eq_ignore_ascii_case("t") { Transport::Tcp } else { Transport::Udp };
+        // an upper-case transport letter: serve the (single-entry) catalog through SingleZoneCatalog
+        let single = if f[0] == "T" || f[0] == "U" { build_server_single(f[1].parse().unwrap(), f[2], f[3]) } else { None };
         let edns: u16 = f[1].parse().unwrap();
         let server = build_server(edns, f[2], f[3]);
         let req = unhex(f[4]);
         let info = ReceivedInfo::new(Ipv4Addr::LOCALHOST.into(), transport);
         let t0 = now_secs();
-        let r = server.handle_message(&req, info, &mut resp_buf);
+        let r = match &single {
+            Some(s1) => s1.handle_message(&req, info, &mut resp_buf),
+            None => server.handle_message(&req, info, &mut resp_buf),
+        };
         let t1 = now_secs();
         match r {
             Response::None => "none".to_string(),
